@@ -7,15 +7,15 @@ from rules.storefacts import field_of
 from rules.c06 import store_method_for_opcode
 
 LEVEL_TEXT = (
-    "Static sibling cross-check; the loud/quiet pairing is read off the repository's own Command enum (X / XQuiet): R1 "
-    "decoder: both opcodes of a pair select the same parser and build their request from the same bytes of the frame "
-    "(identical payload terms up to the opcode constant), and the variant built for XQuiet is the quiet sibling of the one "
-    "built for X; R2 handler: the two arms call the same BinaryHandler method with the same arguments and differ only in "
-    "Some(_) vs into_quiet_*(_); the store method selected inside add_replace / append_prepend is the same for both "
-    "opcodes; R3 every opcode predicate of the handler (is_add_command, is_append, is_get_key_command, and any other "
-    "(u8) -> bool method) and header_valid give the same answer for X and XQuiet; R4 the error response does not depend "
-    "on the opcode. Not decided: equality of store contents after whole programs (follows from R1-R3 given a "
-    "deterministic handler)."
+    "Static sibling cross-check; the loud/quiet pairing is read off the repository's own Command enum (X / XQuiet): "
+    'R1 decoder: both opcodes of a pair select the same parser and build their request from the same bytes of the '
+    'frame (identical payload terms up to the opcode constant), and the variant built for XQuiet is the quiet sibling '
+    'of the one built for X; R2 handler: the quiet request runs the same command method with the same arguments as '
+    'the loud one and differs only in whether the response is sent (the semantic reply table of C12.R2); the store '
+    'method selected inside add_replace / append_prepend is the same for both opcodes; R3 every (u8) -> bool opcode '
+    'predicate of the handler module (method, associated or free function) and every (&self) -> bool validator of the '
+    'codec give the same answer for X and XQuiet; R4 the error response does not depend on the opcode. Not decided: '
+    'equality of store contents after whole programs (follows from R1-R3 given a deterministic handler).'
 )
 ASSUMPTIONS = ["pairing X <-> XQuiet of memcrs::protocol::binary::Command", "bytes semantic table"]
 
